@@ -71,7 +71,10 @@ def gen_c15():
     if rc != 0:
         return rc, out
     rc2, out2 = _run_tr("rs2lean_mul.py", "SrcMul.lean")
-    return rc2, out + out2
+    if rc2 != 0:
+        return rc2, out + out2
+    rc3, out3 = _run_tr("rs2lean_wiring.py", "SrcWiring.lean")
+    return rc3, out + out2 + out3
 
 
 def gen_c04():
@@ -243,7 +246,10 @@ def gen_c16():
     if rc != 0:
         return rc, out
     rc2, out2 = gen_statics()
-    return rc2, out + out2
+    if rc2 != 0:
+        return rc2, out + out2
+    rc3, out3 = _run_tr("rs2lean_wiring.py", "SrcWiring.lean")
+    return rc3, out + out2 + out3
 
 
 def gen_src_work():
